@@ -236,3 +236,72 @@ def wsum_range(hashes, lo, hi, m, c, w):
 def nonzero_cells(arr, n):
     """number of cells of arr[0:n] that are > 0"""
     return sum((1 if arr[i] > 0 else 0) for i in range(0, n))
+
+
+# ---- count-min sketch ----------------------------------------------------------------------------------
+INT32_MAX = 2147483647
+INT32_MIN = -2147483648
+INT64_MAX = 9223372036854775807
+INT64_MIN = -9223372036854775808
+
+
+def cw(s):
+    return s._CountMinSketch__width
+
+
+def cd(s):
+    return s._CountMinSketch__depth
+
+
+def ctotal(s):
+    return s._CountMinSketch__elements_added
+
+
+def valid_query_mode(s):
+    return (s._CountMinSketch__query_method == s._CountMinSketch__min_query
+            or s._CountMinSketch__query_method == s._CountMinSketch__mean_query
+            or s._CountMinSketch__query_method == s._CountMinSketch__mean_min_query)
+
+
+def inv_cms(s):
+    """depth x width int32 counters, row i in cells [i*width, (i+1)*width)"""
+    return (cw(s) >= 1 and cd(s) >= 1 and len(s._bins) == cw(s) * cd(s)
+            and -9223372036854775808 <= ctotal(s) <= 9223372036854775807 and valid_query_mode(s))
+
+
+def clamp32(v):
+    return 2147483647 if v > 2147483647 else (-2147483648 if v < -2147483648 else v)
+
+
+def clamp64(v):
+    return 9223372036854775807 if v > 9223372036854775807 else (-9223372036854775808 if v < -9223372036854775808 else v)
+
+
+def is_min_mode(s):
+    return s._CountMinSketch__query_method == s._CountMinSketch__min_query
+
+
+def row_cell(s, hashes, i):
+    """the counter row i uses for a key with these hashes"""
+    return s._bins[(hashes[i] % cw(s)) + i * cw(s)]
+
+
+# ---- dictionaries (heavy hitters / threshold tables) -------------------------------------------------------
+def upd(m, k, v):
+    d = dict(m)
+    d[k] = v
+    return d
+
+
+def rem(m, k):
+    d = dict(m)
+    d.pop(k, None)
+    return d
+
+
+def allkeys(*maps):
+    """symbolically: every key; natively: the keys that occur in the given dictionaries"""
+    out = set()
+    for m in maps:
+        out |= set(m)
+    return out
